@@ -67,6 +67,92 @@ def build(env, suites, per_cell):
     return cw
 
 
+def _classes(v):
+    """degenerate-looking values a value-dependent wipe might mistake for 'already clear'"""
+    out = []
+    x = 0
+    for b in v:
+        x ^= b
+    if x == 0:
+        out.append("xor_fold_zero")
+    if sum(v) % 256 == 0:
+        out.append("byte_sum_zero")
+    if v[0] == 0:
+        out.append("leading_zero_byte")
+    if v[-1] == 0:
+        out.append("trailing_zero_byte")
+    return out
+
+
+def build_directed(env):
+    """Directed rare-event inputs (each class has probability 2^-8 per random secret): the reference
+    model is used to *search* for RNG bytes / info strings whose shared secret, exporter secret or base
+    nonce falls into a degenerate-looking class.  The monitor that judges the drop is unchanged."""
+    from ref import hpke_ref as R
+    g = gen.G(env.rnd)
+    cw = cl.CaseW()
+    kem = 0x0020
+    k = R.KEMS[kem]
+    found = {}
+    ikmR = g.raw(32)
+    skR, pkR = k.derive_key_pair(ikmR)
+    want = {"xor_fold_zero", "byte_sum_zero", "leading_zero_byte", "trailing_zero_byte"}
+    # --- shared secret
+    hits = {}
+    for t in range(6000):
+        rng = t.to_bytes(4, "big") + b"directed-shared-secret-search" [:28]
+        ss, enc = k.encap(pkR, rng)
+        for c in _classes(ss):
+            hits.setdefault(c, rng)
+        if want <= set(hits):
+            break
+    for c, rng in sorted(hits.items()):
+        s = cw.session(kem, 1, 1, sid="dss_%s" % c)
+        s.call("derive_keypair", ikm=ikmR, out="kR")
+        s.call("encap", pkr="$kR.pk", rng=rng, scan=1, out="e", obj="shared_secret", role="S", directed=c)
+        s.call("decap", skr="$kR.sk", enc="$e.enc", scan=1, obj="shared_secret", role="R", directed=c)
+        s.call("ledger", mark="before_setup_s")
+        s.call("setup_s", mode=0, pkr="$kR.pk", info="-", rng=rng, out="S")
+        s.call("ledger", mark="after_setup_s")
+        s.call("setup_r", mode=0, skr="$kR.sk", enc="$S.enc", info="-", out="R")
+        s.call("ledger", mark="after_setup_r")
+        s.call("ledger", mark="before_drops")
+        s.call("drop", ctx="S", scan=1, obj="context", role="S")
+        s.call("drop", ctx="R", scan=1, obj="context", role="R")
+        s.call("ledger", mark="after_drops")
+        found["shared_secret:" + c] = True
+    # --- exporter secret and base nonce: search over info strings (key schedule only, cheap)
+    for (kdf, aead) in ((1, 1), (2, 2), (3, 3), (1, 0xFFFF)):
+        su = R.suite(kem, kdf, aead)
+        rng = g.raw(32)
+        ss, enc = k.encap(pkR, rng)
+        hits = {}
+        for t in range(6000):
+            info = b"directed-info-" + t.to_bytes(4, "big")
+            ctx = su.key_schedule(0, ss, info)
+            for c in _classes(ctx.exporter_secret):
+                hits.setdefault(("exporter_secret", c), info)
+            if ctx.base_nonce:
+                for c in _classes(ctx.base_nonce):
+                    hits.setdefault(("base_nonce", c), info)
+            if len(hits) >= (8 if aead != 0xFFFF else 4):
+                break
+        for (what, c), info in sorted(hits.items()):
+            s = cw.session(kem, kdf, aead, sid="d%s_%s_%d_%04x" % (what[:2], c, kdf, aead))
+            s.call("derive_keypair", ikm=ikmR, out="kR")
+            s.call("ledger", mark="before_setup_s")
+            s.call("setup_s", mode=0, pkr="$kR.pk", info=info, rng=rng, out="S", directed=what + ":" + c)
+            s.call("ledger", mark="after_setup_s")
+            s.call("setup_r", mode=0, skr="$kR.sk", enc="$S.enc", info=info, out="R")
+            s.call("ledger", mark="after_setup_r")
+            s.call("ledger", mark="before_drops")
+            s.call("drop", ctx="S", scan=1, obj="context", role="S")
+            s.call("drop", ctx="R", scan=1, obj="context", role="R")
+            s.call("ledger", mark="after_drops")
+            found["%s:%s" % (what, c)] = True
+    return cw, sorted(found)
+
+
 def parse_ledger(sv):
     if sv == "nohooks":
         return None
@@ -179,6 +265,9 @@ def run(env):
         suites = gen.suites(sealing_only=False)
         per = 3
     text = build(env, suites, per).text()
+    dcw, dfound = build_directed(env)
+    text += dcw.text()
+    env.extra_cov["directed_degenerate_secret_classes"] = dfound
     for b in ("checked", "fast"):
         res = env.drive("wipe", text, build=b)
         env.require_complete(res, "wipe/" + b)
